@@ -16,7 +16,7 @@ Local Open Scope Z_scope.
 
 (** Headline theorem.  Under
       H1: on the stream's elements, isEqual is symmetric and implies equality of every rendered field,
-      H2: the sort key (7 scalar keys + all diagnostics, sorted) is injective on the isEqual-classes of the stream,
+      H2: the sort key (7 scalar keys + all diagnostics, sorted, + for reports with diagnostics Rule.Lines, Owner, SymlinkTarget) is injective on the isEqual-classes of the stream,
     every permutation of the stream gives the same reported problems in the same order with the same duplicate
     folding, hence the same JSON and console output — for streams of any length (the model of Go's stable sort,
     insertion-sorted blocks of 20 merged by symMerge, is proved to return the unique sorted permutation:
@@ -125,22 +125,26 @@ Proof.
 Qed.
 Print Assumptions C11_runs_agree_exit.
 
-(** H2 is a consequence of ONE invariant of the job enumeration, (J-loc): problems reported for the same file and
-    line range come from entries that agree on symlink target, owner and rule identity (a statement about what
-    checks answer, opaque here, measured on every recorded real stream).  Before fix 346020d a second invariant was
-    needed — among problems that tie on the key, the first diagnostic determines the rest — and promql/aggregate
-    with several labels to keep/strip violated it on real input (one job per label, two reports per rule sharing
-    their first diagnostic: corpus/C11/aggregate-keep-two, replayed every run).  Now the comparator reads all
-    diagnostics, so key-equal reports have the same diagnostics by construction ([C11_key_covers_diagnostics]). *)
+(** H2 from what is left over.  Since fix 346020d the comparator reads all diagnostics, since bc86063 also Rule.Lines,
+    Owner and Path.SymlinkTarget (found as real failures: promql/aggregate with several labels; rule/reject on a
+    group-level label, corpus/C11/aggregate-keep-two and corpus/C11/group-label-reject, replayed every run).  Key-equal
+    reports have the same diagnostics ([C11_key_covers_diagnostics]), and H2 holds for EVERY stream that satisfies the two
+    residues of Proofs/C11_jobs.v:
+      R-kind:   Rule.IsSame (read by isEqual) compares the kind flags, the parse Error and Lines of the rule; only Lines
+                are sort keys, so two reports of one file whose rules have the same Lines must have rules of the same
+                kind and Error;
+      R-nodiag: the trailing keys are never read for reports without diagnostics (cmpDiagnostics answers -1/1 on an
+                empty slice and cmp.Or stops there), so two diagnostic-less reports for the same file, lines and
+                reporter must come from entries agreeing on target, owner and rule.
+    Both are monitored (through H2) on every recorded real stream. *)
 Theorem C11_key_covers_diagnostics : forall a b : report,
   sort_key (norm a) = sort_key (norm b) -> is_same_diags (r_diags b) (r_diags a) = true.
 Proof. exact key_eq_same_diags. Qed.
 Print Assumptions C11_key_covers_diagnostics.
 
-Theorem C11_H2_from_job_invariants : forall jobs : list job,
-  J_loc jobs -> H2 (sequential job report run_job jobs).
-Proof. exact H2_from_job_invariants. Qed.
-Print Assumptions C11_H2_from_job_invariants.
+Theorem C11_H2_from_residue : forall s : list report, R_kind s -> R_nodiag s -> H2 s.
+Proof. exact H2_from_residue. Qed.
+Print Assumptions C11_H2_from_residue.
 
 (** The sort itself: on pairwise distinct elements on which the comparator is transitive and total, the modelled
     slices.SortStableFunc returns a strictly sorted permutation (any length, any element type). *)
@@ -183,7 +187,7 @@ Print Assumptions C11_is_equal_symmetric_partial.
 Definition ex_report (owner details : string) (ds : list diag) : report :=
   {| r_path := "a.yml"; r_target := "a.yml"; r_owner := owner; r_rule := 0%N; r_name := "foo"; r_reporter := "r/a";
      r_summary := "s1"; r_details := details; r_diags := ds; r_lfirst := 1; r_llast := 3; r_sev := 1;
-     r_anchor_before := true |}.
+     r_anchor_before := true; r_rfirst := 1; r_rlast := 3 |}.
 Definition dx := {| dg_msg := "m1"; dg_first := 1; dg_last := 2; dg_extra := 0%N |}.
 Definition dy := {| dg_msg := "m2"; dg_first := 1; dg_last := 2; dg_extra := 0%N |}.
 
@@ -229,6 +233,20 @@ Example C11_position_regression :
   map entry_diag_order (process [b; a; b; a]) = [[0%N]; [1%N]].
 Proof. vm_compute. repeat split; reflexivity. Qed.
 Print Assumptions C11_position_regression.
+
+(** Regression for fix bc86063: two reports located on group-level data (same lines, same diagnostics) that belong to
+    different rules are both kept and come out ordered by the rule's lines, whatever the arrival order. *)
+Definition on_rule (r : report) (f l : Z) : report :=
+  {| r_path := r_path r; r_target := r_target r; r_owner := r_owner r; r_rule := Z.to_N f; r_name := r_name r;
+     r_reporter := r_reporter r; r_summary := r_summary r; r_details := r_details r; r_diags := r_diags r;
+     r_lfirst := r_lfirst r; r_llast := r_llast r; r_sev := r_sev r; r_anchor_before := r_anchor_before r;
+     r_rfirst := f; r_rlast := l |}.
+Example C11_rule_identity_regression :
+  let a := on_rule (ex_report "" "" [dx]) 6 7 in let b := on_rule (ex_report "" "" [dx]) 8 9 in
+  is_equal a b = false /\ h1b [a; b] = true /\ h2b [a; b] = true /\ process [a; b] = process [b; a] /\
+  map (fun e : entry => r_rfirst (fst (fst e))) (process [b; a; b]) = [6; 8].
+Proof. vm_compute. repeat split; reflexivity. Qed.
+Print Assumptions C11_rule_identity_regression.
 
 (** Regression for fix 346020d: two reports of one rule that share their first diagnostic and differ in the second
     (promql/aggregate, keep = ["job", "instance"]) satisfy H1 and H2 and come out in one order. *)
